@@ -232,6 +232,12 @@ func VerifC03Npm() {
 		sets = [][]c03Prim{{{op: ">=", v: va, userPre: vParam("apre") == 1 && vParam("an") == 3}, hi}}
 	}
 	cand, cv := c03Candidate("v")
+	if vParam("kf_c03_and_mixed_prerelease") == 1 && shape == 1 && (vParam("apre") == 1) != (vParam("bpre") == 1) && vParam("vpre") == 1 {
+		// open finding: in a comparator set, node-semver admits a prerelease candidate if ANY comparator names a
+		// prerelease of its tuple and then tests every comparator on the plain order; the library decides
+		// prerelease admission per span before intersecting
+		return
+	}
 	if vParam("kf_c03_lt_zero_prerelease") == 1 {
 		// open finding: '<0.0.0' (also '<0', '<0.0') is the empty set, so prereleases of 0.0.0 admitted by
 		// another comparator of the same set are lost
@@ -469,6 +475,9 @@ func VerifC03Cargo() {
 		text, prims = ta+", "+tb, append(pa, pb...)
 	}
 	cand, cv := c03Candidate("v")
+	if vParam("kf_c03_and_mixed_prerelease") == 1 && vParam("shape") == 1 && (vParam("apre") == 1) != (vParam("bpre") == 1) && vParam("vpre") == 1 {
+		return // the same open finding as for npm: prerelease admission is decided per span, not per comparator list
+	}
 	if vParam("kf_c03_lt_zero_prerelease") == 1 {
 		vAssume(vNot(vAnd(c03LtZero, vAnd(vAnd(cv.M == 0, cv.m == 0), vAnd(cv.p == 0, cv.pre != 100)))))
 	}
